@@ -230,3 +230,31 @@ func TestC01NullMultiSelect(t *testing.T) {
 	st.Exhaustive[prop+".null-multiselect"] = fmt.Sprintf("11 ways to a null (or non-null) current node x 11 multi-selects x 15 continuations x 3 contexts x 3 documents: %d cases", n)
 	st.mu.Unlock()
 }
+
+// TestC01KeywordIdentifiers: JMESPath has no reserved words. Names that are keywords elsewhere
+// (or in later JMESPath proposals), JSON words, function names and number-like names are plain
+// identifiers in every position an identifier can take.
+func TestC01KeywordIdentifiers(t *testing.T) {
+	prop := envStr("VERIF_PROP", "C01")
+	words := []string{"in", "let", "null", "true", "false", "and", "or", "not", "if", "then", "else", "as", "is", "def", "fn", "var", "length", "sort_by", "e", "E1", "inf", "nan", "NaN", "Infinity", "_", "__", "x1", "div", "mod", "where", "select", "from"}
+	tmpls := []string{"%s", "a.%s", "%s.a", "{%s: a}", "{%s: %s}", "a.{%s: b}", "[%s]", "[%s, a]", "%s[0]", "l[?%s]", "l[?%s == `1`]", "%s || a", "a && %s", "!%s", "%s | a", "a | %s", "length(%s)", "max_by(l, &%s)", "*.%s", "l[*].%s", "@.%s", "(%s)", "%s == %s",
+		"{%s: %s}.%s", "l[].%s", "l[0].%s", "sort_by(l, &%s)[0].%s", "not_null(%s, a)", "zz.%s", "zz.{%s: a}", "[%s][0]", "a.%s.%s"}
+	var members, inner []string
+	for i, w := range words {
+		members = append(members, fmt.Sprintf("%q:%d", w, i+1))
+		inner = append(inner, fmt.Sprintf("%q:%d", w, 100-i))
+	}
+	in := "{" + strings.Join(inner, ",") + `,"b":0}`
+	doc := "{" + strings.Join(members, ",") + `,"a":` + in + `,"l":[` + in + "," + "{" + strings.Join(members, ",") + "}" + `]}`
+	n := 0
+	for _, w := range words {
+		for _, tm := range tmpls {
+			run(t, Case{Property: prop, Kind: "diff", Expr: strings.Replace(tm, "%s", w, -1), Doc: doc, Extra: map[string]interface{}{"cell": "keyword-identifier"}})
+			n++
+		}
+	}
+	st := statsFor(prop)
+	st.mu.Lock()
+	st.Exhaustive[prop+".keyword-identifiers"] = fmt.Sprintf("%d keyword-like names x %d identifier positions: %d cases", len(words), len(tmpls), n)
+	st.mu.Unlock()
+}
